@@ -36,6 +36,10 @@ type StoreCfg struct {
 	// Instr: the store is opened with its optional instrumentation (sqlite: metrics hook, logger, a short busy
 	// timeout, and no auto-migration when the file was already migrated by an earlier open; durable-streams: logger)
 	Instr bool `json:"instr,omitempty"`
+	// AltOpts (harness-internal, for the second store of an isolation check): the store is created with
+	// non-default options (durable-streams: another content type and a logger), which must not leak into
+	// stores created with defaults
+	AltOpts bool `json:"-"`
 }
 
 func (c StoreCfg) String() string {
@@ -128,6 +132,9 @@ type dsServer struct {
 	// DelayGet: the j-th GET is held for this long (simulated time) before the server sees it, or until
 	// the request's context is done - whichever comes first
 	DelayGet map[int]time.Duration
+	// DelayPost: likewise for the j-th POST (an append that stalls on the wire)
+	nPost     int
+	DelayPost map[int]time.Duration
 }
 
 func newDSServer(chunk int) *dsServer {
@@ -138,7 +145,7 @@ func newDSServer(chunk int) *dsServer {
 	h := dsproto.NewHandler(memorystorage.New(), cfg)
 	mux := http.NewServeMux()
 	mux.Handle("/v1/stream/", http.StripPrefix("/v1/stream/", h))
-	return &dsServer{handler: mux, Faults: map[int]string{}, GetFaults: map[int]string{}, Fired: map[string]int{}, DelayGet: map[int]time.Duration{}}
+	return &dsServer{handler: mux, Faults: map[int]string{}, GetFaults: map[int]string{}, Fired: map[string]int{}, DelayGet: map[int]time.Duration{}, DelayPost: map[int]time.Duration{}}
 }
 
 var errNet = errors.New("simulated network failure")
@@ -174,9 +181,39 @@ func (s *dsServer) RoundTrip(req *http.Request) (*http.Response, error) {
 			}
 		}
 	}
+	if req.Method == http.MethodPost {
+		d, delayed := s.DelayPost[s.nPost]
+		s.nPost++
+		if delayed {
+			s.Fired["post-delayed"]++
+			tok := simrt.BeforeBlock()
+			tm := time.NewTimer(d)
+			var cerr error
+			select {
+			case <-tm.C:
+			case <-req.Context().Done():
+				cerr = req.Context().Err()
+			}
+			tm.Stop()
+			simrt.AfterBlock(tok)
+			if cerr != nil {
+				return nil, cerr // the client gave up: the server never sees the request
+			}
+		}
+	}
 	if f == "lost-request" {
 		s.Fired["lost-request"]++
 		return nil, errNet
+	}
+	if f == "http-404" || f == "http-500" {
+		// the server answers, but with an error status (a proxy hiccup, a stream that is momentarily not routable)
+		s.Fired[f]++
+		code := map[string]int{"http-404": http.StatusNotFound, "http-500": http.StatusInternalServerError}[f]
+		rec := httptest.NewRecorder()
+		http.Error(rec, http.StatusText(code), code)
+		resp := rec.Result()
+		resp.Request = req
+		return resp, nil
 	}
 	rec := httptest.NewRecorder()
 	s.handler.ServeHTTP(rec, req)
@@ -256,6 +293,9 @@ func (e *storeEnv) openStore(cfg StoreCfg, name string) (eventbus.EventStore, er
 		dopts := []dstore.Option{dstore.WithHTTPClient(&http.Client{Transport: srv}), dstore.WithTimeout(30 * time.Second)}
 		if cfg.Instr {
 			dopts = append(dopts, dstore.WithLogger(nopLogger{}))
+		}
+		if cfg.AltOpts {
+			dopts = append(dopts, dstore.WithContentType("text/plain"), dstore.WithLogger(nopLogger{}), dstore.WithTimeout(7*time.Second))
 		}
 		st, err := dstore.New("http://ds.sim/v1/stream", name, dopts...)
 		if err != nil {
